@@ -482,7 +482,9 @@ impl FixedMethod {
                         break;
                     }
 
-                    if index == 0 || chandra {
+                    // A vowel belongs to the final syllable only as its last character,
+                    // or right before a trailing Chandrabindu.
+                    if index == 0 || (chandra && index == 1) {
                         vowel = true;
                         step += 1;
                         continue;
